@@ -81,7 +81,7 @@ Qed.
 
 Theorem exec_h_exec pol p : forall cid fl hs s, exec_h pol p cid fl hs s = exec pol p cid fl (has_try pol hs) s.
 Proof.
-  induction p as [| | | | | |to amt cb IHcb|to amt cb IHcb| |p1 p2 IHp1 IHp2|c rf body IHbody|b c f IHb IHc IHf| |] using prog_ind';
+  induction p as [| | | | | |to amt cb IHcb|to amt cb IHcb| |p1 p2 IHp1 IHp2|via c rf body IHbody|b c f IHb IHc IHf| |] using prog_ind';
     intros cid cf hs s; cbn [exec exec_h]; auto.
   - (* Move *) repeat case_if; auto; rewrite IHcb; reflexivity.
   - (* MoveNeo *) repeat case_if; auto; rewrite IHcb in *; try reflexivity; congruence.
@@ -105,3 +105,40 @@ Lemma nested_finally_call_runs :
   halted m = true /\ clean m = true /\ events m = [EvN 0 9] /\
   lookup (0, 0) (lst (after m)) = Some 1 /\ lookup (0, 1) (lst (after m)) = Some 1 /\ lookup (1, 0) (lst (after m)) = None.
 Proof. vm_compute. repeat split; reflexivity. Qed.
+
+(* ---------- the two call forms ---------- *)
+
+(* all calls made through System.Contract.Call *)
+Fixpoint erase (p : prog) : prog :=
+  match p with
+  | Move to amt cb => Move to amt (erase cb)
+  | MoveNeo to amt cb => MoveNeo to amt (erase cb)
+  | Seq a b => Seq (erase a) (erase b)
+  | CallV _ c f body => CallV false c f (erase body)
+  | Try b c f => Try (erase b) (option_map erase c) (option_map erase f)
+  | _ => p
+  end.
+
+(* a call through a method token (CALLT -> LoadToken -> callInternal) and a call through System.Contract.Call
+   (-> callInternal) push, commit and drop layers, truncate notifications, fault and throw identically, at every
+   position of every call tree *)
+Theorem call_form_irrelevant pol p : forall cid fl it s, exec pol p cid fl it s = exec pol (erase p) cid fl it s.
+Proof.
+  induction p as [| | | | | |to amt cb IHcb|to amt cb IHcb| |p1 p2 IHp1 IHp2|via c rf body IHbody|b c f IHb IHc IHf| |] using prog_ind';
+    intros cid cf it s; cbn [exec erase]; auto.
+  - repeat case_if; auto; rewrite <- IHcb in *; try reflexivity; congruence.
+  - repeat case_if; auto; rewrite <- IHcb in *; try reflexivity; congruence.
+  - rewrite <- IHp1. destruct (exec pol p1 cid cf it s); auto.
+  - case_if; auto. rewrite <- IHbody. reflexivity.
+  - apply try_of_ext.
+    + intros x. apply IHb.
+    + destruct c; simpl in *; auto. intros x. destruct f; simpl; apply IHc.
+    + destruct f; simpl in *; auto. intros x. apply IHf.
+Qed.
+
+Theorem call_form_irrelevant_one pol via c f body cid fl it s :
+  exec pol (CallV via c f body) cid fl it s = exec pol (CallV false c f body) cid fl it s.
+Proof. reflexivity. Qed.
+
+Corollary call_form_irrelevant_tx pol base p : run_tx pol base p = run_tx pol base (erase p).
+Proof. unfold run_tx. rewrite call_form_irrelevant. reflexivity. Qed.
